@@ -48,7 +48,23 @@ impl JoinState {
         let mut state = JoinState::Joined;
         mem::swap(self, &mut state);
         if let JoinState::Running(handle) = state {
+            // the scope must not be left while the child is running, also when the owner
+            // is cancelled meanwhile: wait with the cancel disabled until it is really done
+            let cancel = if crate::coroutine_impl::is_coroutine() {
+                Some(crate::coroutine_impl::current_cancel_data())
+            } else {
+                None
+            };
+            if let Some(c) = cancel.as_ref() {
+                c.disable_cancel();
+            }
+            while !handle.is_done() {
+                handle.wait();
+            }
             let res = handle.join();
+            if let Some(c) = cancel.as_ref() {
+                c.enable_cancel();
+            }
 
             // TODO: when panic happened, the logic need to refine
             if !thread::panicking() {
